@@ -260,6 +260,12 @@ class MatrixWeighting(Weighting):
         """Weighting matrix of this inner product."""
         return self._matrix
 
+    @property
+    def matrix_issparse(self):
+        """Whether the representing matrix is sparse or not."""
+        import scipy.sparse
+        return scipy.sparse.isspmatrix(self.matrix)
+
     def is_valid(self):
         """Test if the matrix is positive definite Hermitian.
 
@@ -356,8 +362,8 @@ class MatrixWeighting(Weighting):
     def __hash__(self):
         """Return ``hash(self)``."""
         # TODO: Better hash for matrix?
-        return hash((super(MatrixWeighting, self).__hash__(),
-                     self.matrix.tobytes()))
+        mat = self.matrix.toarray() if self.matrix_issparse else self.matrix
+        return hash((super(MatrixWeighting, self).__hash__(), mat.tobytes()))
 
     def equiv(self, other):
         """Test if other is an equivalent weighting.
@@ -548,8 +554,10 @@ class ArrayWeighting(Weighting):
             return other.equiv(self)
         elif isinstance(other, ConstWeighting):
             return np.array_equiv(self.array, other.const)
-        else:
+        elif isinstance(other, ArrayWeighting):
             return np.array_equal(self.array, other.array)
+        else:
+            return False
 
     @property
     def repr_part(self):
